@@ -1,41 +1,54 @@
 (* Properties/C14.v — references resolve lexically; inlining a reference never changes behaviour;
-   ValidateReferences iff linked; recursive graphs.  Statements only; every proof is `exact <lemma>`.
+   ValidateReferences iff linked; self-referential graphs work on all finite inputs.
+   Statements only; every proof is `exact <lemma>`.
 
-   The linking model is Schema/Link.v (a link table keyed by the path of every reference occurrence;
-   `link_ns` = ApplyNamespace, `link_build` = construction through NewScopeSchema, `validate_refs` =
-   ValidateReferences), after the fix for D61.  The data operations are Schema/Ops.v, which look a
-   reference up in the environment (`resolve`); scopes enter their own table with `env_enter`.
+   The linking model is Schema/Link.v (a link table keyed by the STRUCTURED path of every reference
+   occurrence; `link_ns` = ApplyNamespace, `link_build` = construction through NewScopeSchema,
+   `validate_refs` = ValidateReferences), after the fix for D61.  The data operations are Schema/Ops.v,
+   which look a reference up in the environment (`resolve`); scopes enter their own table (`env_enter`).
 
-   PROVED here, for every schema, table and fuel: C14_other_ns_untouched, C14_validate_refs_iff,
-   C14_inline_step_{unser,validate,serialize} with C14_self_reference_keeps_environment, and the
-   refutation C14_recursive_refuted (D11).
-   NOT PROVED in general (checked on every generated case by the harness — direct checks on the SDK and
-   the correspondence with this model — and on the examples below); full statements:
+   Specification vocabulary (Proofs/Link2.v, Proofs/Link2Inline.v, Schema/Wf.v, Schema/Total.v):
+     occs src ns here s     every reference occurrence of s with the object table a walk
+                            ApplyNamespace(_, ns) hands to it (self namespace: the table of the NEAREST
+                            enclosing scope)
+     envrefs e here s       the same occurrences with the environment Ops.v resolves them in
+     luniq s                unique keys in every property / member / object list (Go maps)
+     ns_names_ok apps       namespace names distinct and none of them the self namespace ""
+     apply_all f s apps lt  the external namespaces applied one after the other
+     inlines_to e s s'      s' = s with any number of self references replaced by their objects, in
+                            any context; inl_env e e' the same for the tables of an environment
+     refs_to_objects e s    scope tables hold objects (checked at every self reference)
+     wf_schema, no_inline_cycle, defaults_total, fuel_bound   as for C04 (Schema/Wf.v, Schema/Total.v)
 
-     C14_lexical / C14_link_agrees:
-       forall fuel e s lt, link_build fuel "" s [] = Ok lt0 -> (all namespaces of e applied giving lt) ->
-         forall p e' id ns, In (p, (e', (id, ns))) (refs_env fuel e "" s) ->
-           option_map (fun x => (le_obj x, le_tab x)) (lt_get p lt)
-             = option_map (fun r => (fst r, e_self (snd r))) (resolve e' id ns)
-       (for ns = "" the right-hand side is the object of that id in the NEAREST enclosing scope, because
-        `refs_env` enters every scope it passes: inner scopes shadow outer ones).
-     C14_order_irrelevant:
-       ns1 <> ns2 -> link_ext f ns1 t1 s lt = Ok a -> link_ext f ns2 t2 s a = Ok b ->
-       link_ext f ns2 t2 s lt = Ok a' -> link_ext f ns1 t1 s a' = Ok b' -> forall p, lt_get p b = lt_get p b'
-     C14_inline_equiv (in an arbitrary context, any number of inlinings):
-       forall fuel e s v r, unser fuel e s v = r -> r <> OutOfFuel ->
-         unser fuel e (inline_refs n (e_self e) stop s) v = r            (likewise validate, serialize)
-     C14_recursive_terminates:
-       no_inline_cycle e s -> forall v, exists fuel, unser fuel e s v <> OutOfFuel
-       (with fuel linear in the nesting depth of v). *)
-From Coq Require Import List ZArith Bool String.
+   ALL of the statements of the property are proved for every schema, table, input and fuel:
+     C14_sets_exactly, C14_other_ns_untouched, C14_lexical, C14_link_agrees, C14_apply_namespaces,
+     C14_order_irrelevant,
+     C14_validate_refs_iff, C14_inline_step_*, C14_inline_equiv_{unser,validate,serialize},
+     C14_inline_refs_equiv(_back), C14_recursive_terminates; refuted without its hypothesis:
+     C14_recursive_refuted (known finding D11).
+   Not covered: two scopes sharing one Go object by pointer (outside the model: scope nests are
+   trees).  The boolean side conditions (luniq, ns_names_ok, refs_to_objects) are evaluated on every
+   generated case by Interp/RunLink.v (a case violating one is reported as a disagreement). *)
+From Coq Require Import List ZArith Bool String Permutation.
 From Verif Require Import Base.Prelude Base.Str Base.Float Base.GoVal Schema.Regex Schema.Units
-  Schema.Syntax Schema.Ops Schema.Link Schema.Compat Proofs.Compat Proofs.Link.
+  Schema.Syntax Schema.Ops Schema.Link Schema.Compat Schema.Wf Schema.Total
+  Proofs.Compat Proofs.Link Proofs.Link2 Proofs.Link2Inline Proofs.Link2Term.
 Import ListNotations.
 Open Scope string_scope.
 
-(* (1) Applying one namespace leaves references to other namespaces untouched: the link of an
-   occurrence changes only if a reference WITH THE APPLIED NAMESPACE sits at that occurrence. *)
+(* ================= (1) linking ================= *)
+
+(* ApplyNamespace(ns) sets EXACTLY the occurrences of namespace ns: each of them to the object with
+   that id in the table handed to it ... *)
+Theorem C14_sets_exactly : forall f src ns here s lt lt',
+  link_ns f src ns here s lt = Ok lt' -> luniq s = true ->
+  forall p srcp id, In (p, (srcp, (id, ns))) (occs src ns here s) ->
+  exists x, lt_get p lt' = Some x /\
+            exists tab loc o, srcp = Some (tab, loc) /\ alookup id tab = Some o /\ x = mkLE loc tab o.
+Proof. exact link_ns_sets. Qed.
+Print Assumptions C14_sets_exactly.
+
+(* ... and leaves every other occurrence untouched. *)
 Theorem C14_other_ns_untouched : forall fuel src ns here s lt lt' p,
   link_ns fuel src ns here s lt = Ok lt' ->
   (forall id, ~ In (p, (id, ns)) (refs_of fuel here s)) ->
@@ -43,16 +56,63 @@ Theorem C14_other_ns_untouched : forall fuel src ns here s lt lt' p,
 Proof. exact link_ns_untouched. Qed.
 Print Assumptions C14_other_ns_untouched.
 
-(* (2) ValidateReferences succeeds exactly when every reference is linked. *)
+(* Lexical resolution: after construction every self-namespace reference inside a scope is linked to
+   the object of that id in the table of the NEAREST enclosing scope (`occs` hands the innermost
+   scope's table down: inner scopes shadow outer ones). *)
+Theorem C14_lexical : forall f here s lt lt', link_build f here s lt = Ok lt' -> luniq s = true ->
+  forall p tab q id, In (p, (Some (tab, q), (id, ""))) (occs None "" here s) ->
+  exists o, alookup id tab = Some o /\ lt_get p lt' = Some (mkLE q tab o).
+Proof. exact link_build_lexical. Qed.
+Print Assumptions C14_lexical.
+
+(* The link table agrees with the environment lookup of Ops.v at EVERY reference occurrence, once the
+   schema is built and the namespaces of the environment are applied in any order. *)
+Theorem C14_link_agrees : forall f s e apps lt0 lt, link_build f [] s [] = Ok lt0 ->
+  Permutation apps (e_ext e) -> apply_all f s apps lt0 = Ok lt ->
+  luniq s = true -> e_self e = [] -> ns_names_ok (e_ext e) = true ->
+  forall p e' id ns, In (p, (e', (id, ns))) (envrefs e [] s) ->
+    option_map (fun x => (le_obj x, le_tab x)) (lt_get p lt)
+    = option_map (fun r => (fst r, e_self (snd r))) (resolve e' id ns).
+Proof. exact link_agrees_b. Qed.
+Print Assumptions C14_link_agrees.
+
+(* Any list of applications (possibly only some of the namespaces): the occurrences of an applied
+   namespace are linked into its table, every other occurrence keeps the link it had. *)
+Theorem C14_apply_namespaces : forall f s apps lt lt', apply_all f s apps lt = Ok lt' -> luniq s = true ->
+  ns_names_ok apps = true ->
+  forall p,
+    (forall srcp id ns tab, In (p, (srcp, (id, ns))) (occs None "" [] s) -> In (ns, tab) apps ->
+        exists o, alookup id tab = Some o /\ lt_get p lt' = Some (mkLE (LExt ns) tab o)) /\
+    ((forall srcp id ns, In (p, (srcp, (id, ns))) (occs None "" [] s) -> ~ In ns (map fst apps)) ->
+        lt_get p lt' = lt_get p lt).
+Proof. exact apply_all_spec_b. Qed.
+Print Assumptions C14_apply_namespaces.
+
+(* the fuelled enumeration used by ValidateReferences and printed by the harness lists structural
+   occurrences only *)
+Theorem C14_refs_of_are_occs : forall f here s p id ns, In (p, (id, ns)) (refs_of f here s) ->
+  exists srcp, In (p, (srcp, (id, ns))) (occs None "" here s).
+Proof. exact refs_of_are_occs. Qed.
+Print Assumptions C14_refs_of_are_occs.
+
+(* Applying the external namespaces in any order gives the same link table: if one order returns,
+   every permutation returns, and the two tables agree at every path. *)
+Theorem C14_order_irrelevant : forall f s apps apps' lt a, Permutation apps apps' ->
+  ns_names_ok apps = true -> luniq s = true -> apply_all f s apps lt = Ok a ->
+  exists b, apply_all f s apps' lt = Ok b /\ forall p, lt_get p a = lt_get p b.
+Proof. exact order_irrelevant_total. Qed.
+Print Assumptions C14_order_irrelevant.
+
+(* ================= (2) ValidateReferences ================= *)
 Theorem C14_validate_refs_iff : forall fuel lt here s,
   validate_refs fuel lt here s = true <->
   (forall p id ns, In (p, (id, ns)) (refs_of fuel here s) -> lt_get p lt <> None).
 Proof. exact validate_refs_iff. Qed.
 Print Assumptions C14_validate_refs_iff.
 
-(* (3) A reference behaves exactly as the object it denotes, with one unit of fuel less, on every
-   input; and a self-namespace reference denotes an object of the environment it occurs in, so the
-   object's own references keep their meaning when it is put in the reference's place. *)
+(* ================= (3) inlining ================= *)
+
+(* one step: a reference behaves exactly as the object it denotes, with one unit of fuel less *)
 Theorem C14_inline_step_unser : forall words pu f e id ns d o e' v,
   resolve e id ns = Some (o, e') ->
   unser words pu (S f) e (SRef id ns d) v = unser words pu f e' o v.
@@ -76,72 +136,187 @@ Theorem C14_self_reference_keeps_environment : forall e id o e',
 Proof. exact resolve_self_env. Qed.
 Print Assumptions C14_self_reference_keeps_environment.
 
-(* (4) "self-referential object graphs work on all finite inputs" is refuted (known finding D11): the
-   one-property object A{x: ref A} given a non-map input follows its own reference for ever. *)
+(* in an ARBITRARY context, any number of inlinings: every result other than OutOfFuel of the original
+   is the result of the inlined schema at the same fuel, and every such result of the inlined schema
+   is the result of the original at twice the fuel — on all inputs, for all fuels. *)
+Theorem C14_inline_equiv_unser : forall words pu e e' s s', inl_env e e' -> inlines_to e s s' ->
+  forall f v r, r <> OutOfFuel ->
+    (unser words pu f e s v = r -> unser words pu f e' s' v = r) /\
+    (unser words pu f e' s' v = r -> unser words pu (2 * f) e s v = r).
+Proof. exact inline_equiv_unser. Qed.
+Print Assumptions C14_inline_equiv_unser.
+
+Theorem C14_inline_equiv_validate : forall words pu e e' s s', inl_env e e' -> inlines_to e s s' ->
+  forall f v r, r <> OutOfFuel ->
+    (validate words pu f e s v = r -> validate words pu f e' s' v = r) /\
+    (validate words pu f e' s' v = r -> validate words pu (2 * f) e s v = r).
+Proof. exact inline_equiv_validate. Qed.
+Print Assumptions C14_inline_equiv_validate.
+
+Theorem C14_inline_equiv_serialize : forall words pu e e' s s', inl_env e e' -> inlines_to e s s' ->
+  forall f v r, r <> OutOfFuel ->
+    (serialize words pu f e s v = r -> serialize words pu f e' s' v = r) /\
+    (serialize words pu f e' s' v = r -> serialize words pu (2 * f) e s v = r).
+Proof. exact inline_equiv_serialize. Qed.
+Print Assumptions C14_inline_equiv_serialize.
+
+(* every environment is related to itself, every schema inlines to itself (so e' = e, or s' = s, are
+   instances), and the mechanical inliner of Schema/Link.v — the harness's metamorphic partner —
+   produces an inlining *)
+Theorem C14_inl_env_refl : forall e, inl_env e e.
+Proof. exact inl_env_refl. Qed.
+Print Assumptions C14_inl_env_refl.
+
+Theorem C14_inline_refs_inlines : forall n e stop s, refs_to_objects e s = true ->
+  inlines_to e s (inline_refs n (e_self e) stop s).
+Proof. exact inline_refs_inlines. Qed.
+Print Assumptions C14_inline_refs_inlines.
+
+Theorem C14_inline_refs_equiv : forall words pu e s n stop, refs_to_objects e s = true ->
+  forall f v,
+    (forall r, unser words pu f e s v = r -> r <> OutOfFuel ->
+               unser words pu f e (inline_refs n (e_self e) stop s) v = r) /\
+    (forall r, validate words pu f e s v = r -> r <> OutOfFuel ->
+               validate words pu f e (inline_refs n (e_self e) stop s) v = r) /\
+    (forall r, serialize words pu f e s v = r -> r <> OutOfFuel ->
+               serialize words pu f e (inline_refs n (e_self e) stop s) v = r).
+Proof. exact inline_refs_equiv. Qed.
+Print Assumptions C14_inline_refs_equiv.
+
+Theorem C14_inline_refs_equiv_back : forall words pu e s n stop, refs_to_objects e s = true ->
+  forall f v,
+    (forall r, unser words pu f e (inline_refs n (e_self e) stop s) v = r -> r <> OutOfFuel ->
+               unser words pu (2 * f) e s v = r) /\
+    (forall r, validate words pu f e (inline_refs n (e_self e) stop s) v = r -> r <> OutOfFuel ->
+               validate words pu (2 * f) e s v = r) /\
+    (forall r, serialize words pu f e (inline_refs n (e_self e) stop s) v = r -> r <> OutOfFuel ->
+               serialize words pu (2 * f) e s v = r).
+Proof. exact inline_refs_equiv_back. Qed.
+Print Assumptions C14_inline_refs_equiv_back.
+
+(* ================= (4) recursive graphs ================= *)
+
+(* self- and mutually-referential objects work on all finite inputs: an explicit fuel suffices,
+     fuel_bound K e s v = K + 3 + (4 * nic_fuel e s + 8) * (1 + vdepth v),
+   under the constructors' contracts, no_inline_cycle (the single-property shorthand never re-enters
+   an object without consuming input) and acyclic defaults (each processed within K steps). *)
+Theorem C14_recursive_terminates : forall words pu (K : nat) (e : env) (s : schema) (v : gval),
+  wf_schema e s = true -> no_inline_cycle e s = true -> defaults_total words pu K e s = true ->
+  forall f, (fuel_bound K e s v <= f)%nat ->
+    unser words pu f e s v <> OutOfFuel /\
+    validate words pu f e s v <> OutOfFuel /\
+    serialize words pu f e s v <> OutOfFuel.
+Proof. exact c14_recursive_terminates. Qed.
+Print Assumptions C14_recursive_terminates.
+
+(* without no_inline_cycle it is refuted (known finding D11): the one-property object A{x: ref A}
+   given a non-map input follows its own reference for ever. *)
 Theorem C14_recursive_refuted : forall words pu o fuel,
   unser words pu fuel (c15_env0 o) c15_rec_scope (VStr TStr "foo") = OutOfFuel.
 Proof. exact recursive_shorthand_diverges. Qed.
 Print Assumptions C14_recursive_refuted.
 
-(* ---------- examples (evaluation, not theorems) ---------- *)
+(* ================= examples: the hypotheses are satisfiable by non-trivial instances ================= *)
 
 Definition c14_inner : schema :=
   SScope [("A", SObject "A" false [("inner", c15_prop SBool); ("b", c15_prop (SRef "B" "" None))]);
           ("B", SObject "B" false [("innerB", c15_prop (SInt None None None))])] "A".
 Definition c14_shadow : schema :=
   SScope [("A", SObject "A" false [("s", c15_prop c14_inner); ("b", c15_prop (SRef "B" "" None));
-                                    ("x", c15_prop (SList (SRef "X" "n1" None) None None))]);
+                                    ("x", c15_prop (SList (SRef "X" "n1" None) None None));
+                                    ("y", c15_prop (SRef "Y" "n2" None))]);
           ("B", SObject "B" false [("outerB", c15_prop (SString None None None))])] "A".
 Definition c14_n1 : objtab := [("X", SObject "X" false [("a", c15_prop (SInt None None None))])].
+Definition c14_n2 : objtab := [("Y", SObject "Y" false [("c", c15_prop SBool)])].
+Definition c14_apps : list (string * objtab) := [("n1", c14_n1); ("n2", c14_n2)].
+Definition c14_or : oracles := mkOracles (fun _ => None) (fun _ => false).
+Definition c14_env : env := mkEnv [] c14_apps c14_or.
+
+Definition p_outer_b : lpath := [PProp "b"; PObj "A"].
+Definition p_inner_b : lpath := [PProp "b"; PObj "A"; PProp "s"; PObj "A"].
+Definition p_x : lpath := [PItem; PProp "x"; PObj "A"].
 
 (* lexical resolution with shadowing, untouched namespace, ValidateReferences before / after *)
 Example C14_lexical_example :
-  match link_build 20 "" c14_shadow [] with
+  luniq c14_shadow = true /\
+  List.length (occs None "" [] c14_shadow) = 4%nat /\
+  match link_build 20 [] c14_shadow [] with
   | Ok lt0 =>
-      option_map le_loc (lt_get "/O:A/p:b" lt0) = Some (LScope "") /\
-      option_map le_loc (lt_get "/O:A/p:s/O:A/p:b" lt0) = Some (LScope "/O:A/p:s") /\
-      option_map le_obj (lt_get "/O:A/p:s/O:A/p:b" lt0) = Some (SObject "B" false [("innerB", c15_prop (SInt None None None))]) /\
-      lt_get "/O:A/p:x/i" lt0 = None /\
-      validate_refs 20 lt0 "" c14_shadow = false /\
-      match link_ext 20 "n1" c14_n1 c14_shadow lt0 with
-      | Ok lt1 => option_map le_loc (lt_get "/O:A/p:x/i" lt1) = Some (LExt "n1") /\
-                  lt_get "/O:A/p:b" lt1 = lt_get "/O:A/p:b" lt0 /\
-                  validate_refs 20 lt1 "" c14_shadow = true
+      option_map le_loc (lt_get p_outer_b lt0) = Some (LScope []) /\
+      option_map le_loc (lt_get p_inner_b lt0) = Some (LScope [PProp "s"; PObj "A"]) /\
+      option_map le_obj (lt_get p_inner_b lt0) = Some (SObject "B" false [("innerB", c15_prop (SInt None None None))]) /\
+      lt_get p_x lt0 = None /\
+      validate_refs 20 lt0 [] c14_shadow = false /\
+      match apply_all 20 c14_shadow c14_apps lt0 with
+      | Ok lt1 => option_map le_loc (lt_get p_x lt1) = Some (LExt "n1") /\
+                  lt_get p_outer_b lt1 = lt_get p_outer_b lt0 /\
+                  validate_refs 20 lt1 [] c14_shadow = true
       | _ => False
       end
   | _ => False
   end.
 Proof. vm_compute. repeat split; reflexivity. Qed.
 
-(* the link table agrees with the environment lookup of Ops.v on every occurrence of the example *)
+(* the hypotheses of C14_link_agrees / C14_order_irrelevant hold for the example, both orders return,
+   and the link table agrees with `resolve` on every occurrence *)
 Example C14_link_agrees_example :
-  let o := mkOracles (fun _ => None) (fun _ => false) in
-  let e := mkEnv [] [("n1", c14_n1)] o in
-  match link_build 20 "" c14_shadow [] with
+  ns_names_ok c14_apps = true /\ e_self c14_env = [] /\
+  List.length (envrefs c14_env [] c14_shadow) = 4%nat /\
+  match link_build 20 [] c14_shadow [] with
   | Ok lt0 =>
-      match link_ext 20 "n1" c14_n1 c14_shadow lt0 with
-      | Ok lt1 =>
+      match apply_all 20 c14_shadow c14_apps lt0, apply_all 20 c14_shadow (rev c14_apps) lt0 with
+      | Ok lt1, Ok lt2 =>
           forallb (fun r =>
             let '(p, (e', (id, ns))) := r in
-            match lt_get p lt1, resolve e' id ns with
-            | Some x, Some (ob, e'') => andb (Nat.eqb (List.length (le_tab x)) (List.length (e_self e'')))
-                                            (match le_obj x, ob with SObject a _ _, SObject b _ _ => String.eqb a b | _, _ => false end)
-            | _, _ => false
-            end) (refs_env 20 e "" c14_shadow) = true
-      | _ => False
+            match lt_get p lt1, lt_get p lt2, resolve e' id ns with
+            | Some x, Some y, Some (ob, e'') =>
+                andb (Nat.eqb (List.length (le_tab x)) (List.length (e_self e'')))
+                     (match le_obj x, le_obj y, ob with
+                      | SObject a _ _, SObject b _ _, SObject c _ _ => String.eqb a c && String.eqb b c
+                      | _, _, _ => false end)
+            | _, _, _ => false
+            end) (envrefs c14_env [] c14_shadow) = true
+      | _, _ => False
       end
   | _ => False
   end.
-Proof. vm_compute. reflexivity. Qed.
+Proof. vm_compute. repeat split; reflexivity. Qed.
 
-(* a mutually recursive scope on an input nested 60 levels: terminates well inside the fuel *)
+Example C14_order_example : Permutation c14_apps (rev c14_apps).
+Proof. apply Permutation_rev. Qed.
+
+(* inlining: the example's references are to objects, the inliner changes the schema, and the two
+   schemas agree on an input that walks through the inlined reference *)
+Definition c14_rec : schema :=
+  SScope [("A", SObject "A" false [("v", c15_prop (SInt None None None)); ("next", c15_prop (SRef "A" "" None));
+                                    ("l", c15_prop (SList (SRef "B" "" None) None None))]);
+          ("B", SObject "B" false [("w", c15_prop SBool)])] "A".
 Fixpoint c14_chain (n : nat) : gval :=
   match n with
   | O => VMap t_any_map false [(vstr "v", vi64 0)]
-  | S m => VMap t_any_map false [(vstr "v", vi64 1); (vstr "next", c14_chain m)]
+  | S m => VMap t_any_map false [(vstr "v", vi64 1); (vstr "next", c14_chain m);
+                                 (vstr "l", VSlice t_any_slice false [VMap t_any_map false [(vstr "w", vbool true)]])]
   end.
+Definition schema_differs (a b : schema) : bool :=
+  match a, b with
+  | SScope ((_, SObject _ _ ((_, _) :: (_, p) :: _)) :: _) _, SScope ((_, SObject _ _ ((_, _) :: (_, p') :: _)) :: _) _ =>
+      match p_type p, p_type p' with SRef _ _ _, SObject _ _ _ => true | _, _ => false end
+  | _, _ => false
+  end.
+Example C14_inline_example :
+  let e := c15_env0 c14_or in
+  refs_to_objects e c14_rec = true /\
+  schema_differs c14_rec (inline_refs 3 (e_self e) [] c14_rec) = true /\
+  is_ok (unser [] (fun _ _ => None) 60 e c14_rec (c14_chain 5)) = true /\
+  is_ok (unser [] (fun _ _ => None) 60 e (inline_refs 3 (e_self e) [] c14_rec) (c14_chain 5)) = true.
+Proof. vm_compute. repeat split; reflexivity. Qed.
+
+(* recursion: the hypotheses of C14_recursive_terminates hold for the mutually recursive scope, the
+   bound is small, and the D11 schema is exactly what no_inline_cycle excludes *)
 Example C14_recursive_example :
-  let o := mkOracles (fun _ => None) (fun _ => false) in
-  let s := SScope [("A", SObject "A" false [("v", c15_prop (SInt None None None)); ("next", c15_prop (SRef "A" "" None))])] "A" in
-  is_ok (unser [] (fun _ _ => None) 200 (c15_env0 o) s (c14_chain 60)) = true.
-Proof. vm_compute. reflexivity. Qed.
+  let e := c15_env0 c14_or in
+  let pu := fun (_ : units) (_ : string) => @None fl in
+  wf_schema e c14_rec = true /\ no_inline_cycle e c14_rec = true /\ defaults_total [] pu 5 e c14_rec = true /\
+  is_ok (unser [] pu (fuel_bound 5 e c14_rec (c14_chain 30)) e c14_rec (c14_chain 30)) = true /\
+  no_inline_cycle e c15_rec_scope = false.
+Proof. vm_compute. repeat split; reflexivity. Qed.
